@@ -46,6 +46,21 @@ theorem fixedZone_soundAt (e : Int) (tm : Tm) (hv : tm.validCivil) : (fixedZone 
   · have : secsFromTm tm - e + e = secsFromTm tm := by omega
     rw [this]; exact tmFromSecs_secsFromTm tm hv
 
+theorem fixedZone_followsOffsets (e : Int) : (fixedZone e).FollowsOffsets (fun _ => e) where
+  localtime t tm h := by
+    obtain ⟨rfl, _⟩ := fixedZone_toLocal e t tm h
+    exact ⟨rfl, rfl, rfl, rfl, rfl, rfl⟩
+  year_int := (fixedZone_lawful e).year_int
+  mktime_converts tm t h := by
+    obtain ⟨_, hc⟩ := fixedZone_fromLocal e t tm h
+    exact ⟨tmFromSecs (t + e), by unfold fixedZone; dsimp only; rw [if_pos hc]⟩
+  mktime_hit tm t _ h _ := by
+    obtain ⟨rfl, _⟩ := fixedZone_fromLocal e t tm h
+    omega
+  mktime_gap tm t _ h := by
+    obtain ⟨rfl, _⟩ := fixedZone_fromLocal e t tm h
+    exact ⟨secsFromTm tm - e, by omega, by omega, by omega⟩
+
 /-! ## the tm handed to mktime/timegm is a real date showing the PIL -/
 
 theorem pilTm_valid (tm0 tm1 : Tm) (pil : Nat) (isdst : Int) (hv : PilValid pil) (hm0 : 0 ≤ tm0.mon) (hm1 : tm0.mon ≤ 11)
@@ -95,6 +110,70 @@ theorem pil_to_time_core (cfg : Cfg) (L : Libc) (w : World) (pil : Nat) (start :
   · unfold Tm.monthIndex at v3 ⊢; rw [e1, e2]; exact v3
   · unfold Tm.monthIndex at v4 ⊢; rw [e1, e2]; exact v4
   · rw [e1]; exact v5
+
+/-- the part of `pil_to_time_core` that needs no assumption on mktime -/
+theorem pil_to_time_pre (cfg : Cfg) (L : Libc) (w : World) (pil : Nat) (start : Int) (tz : Option String)
+    (hc : w.Consistent) (htz : tz ≠ some "UTC")
+    (hlaw : (L.zoneOf (effectiveTz w tz)).Lawful)
+    (hyear : ∀ tms, (L.zoneOf (effectiveTz w tz)).toLocal (refTime L start) = some tms →
+      1 ≤ tms.year + 1900 ∧ tms.year + 1901 ≤ INT_MAX)
+    (hr : (vbiPilToTime cfg L w pil start tz).1 ≠ -1) :
+    ∃ tms tmP, (L.zoneOf (effectiveTz w tz)).toLocal (refTime L start) = some tms
+      ∧ tmP.validCivil ∧ tmP.hasPil pil
+      ∧ -6 ≤ tmP.monthIndex - tms.monthIndex ∧ tmP.monthIndex - tms.monthIndex ≤ 5
+      ∧ (pilMonth pil = 2 → pilDay pil = 29 → isLeap (tmP.year + 1900))
+      ∧ (L.zoneOf (effectiveTz w tz)).fromLocal tmP = some (vbiPilToTime cfg L w pil start tz).1 := by
+  obtain ⟨hv, tm0, tm1, h0, h1, h2, h3⟩ := vbiPilToTime_val cfg L w pil start tz hc htz hr
+  have hv' := (pilIsValidDate_iff pil).1 hv
+  have hmon := hlaw.mon_range _ _ h0
+  have hy := hyear _ h0
+  obtain ⟨v1, v2, v3, v4, v5⟩ := pilTm_valid tm0 tm1 pil (-1) hv' hmon.1 hmon.2 hy.1 hy.2 h1 h2
+  exact ⟨tm0, _, h0, v1, v2, v3, v4, v5, h3⟩
+
+theorem Tm.sameCivil.trans {a b c : Tm} (h1 : a.sameCivil b) (h2 : b.sameCivil c) : a.sameCivil c :=
+  ⟨h1.1.trans h2.1, h1.2.1.trans h2.2.1, h1.2.2.1.trans h2.2.2.1, h1.2.2.2.1.trans h2.2.2.2.1,
+   h1.2.2.2.2.1.trans h2.2.2.2.2.1, h1.2.2.2.2.2.trans h2.2.2.2.2.2⟩
+
+theorem Tm.sameCivil.hasPil {a b : Tm} {pil : Nat} (h : a.sameCivil b) (hb : b.hasPil pil) : a.hasPil pil := by
+  obtain ⟨_, e2, e3, e4, e5, e6⟩ := h
+  unfold Tm.hasPil at hb ⊢; rw [e2, e3, e4, e5, e6]; exact hb
+
+theorem Zone.FollowsOffsets.lawful {Z : Zone} {off : Int → Int} (h : Z.FollowsOffsets off) : Z.Lawful where
+  mon_range t tm ht := by
+    obtain ⟨_, e2, _⟩ := h.localtime t tm ht
+    have := (secsFromTm_tmFromSecs (t + off t)).2
+    rw [e2]; exact ⟨this.1, this.2.1⟩
+  year_int := h.year_int
+
+/-- `vbi_pil_to_time` in a zone with DST, gap/overlap rule explicit -/
+theorem pil_to_time_dst (cfg : Cfg) (L : Libc) (w : World) (pil : Nat) (start : Int) (tz : Option String) (off : Int → Int)
+    (hc : w.Consistent) (htz : tz ≠ some "UTC")
+    (hz : (L.zoneOf (effectiveTz w tz)).FollowsOffsets off)
+    (hyear : ∀ tms, (L.zoneOf (effectiveTz w tz)).toLocal (refTime L start) = some tms →
+      1 ≤ tms.year + 1900 ∧ tms.year + 1901 ≤ INT_MAX)
+    (hr : (vbiPilToTime cfg L w pil start tz).1 ≠ -1) :
+    ∃ tms tmP tmr, (L.zoneOf (effectiveTz w tz)).toLocal (refTime L start) = some tms
+      ∧ tmP.validCivil ∧ tmP.hasPil pil
+      ∧ -6 ≤ tmP.monthIndex - tms.monthIndex ∧ tmP.monthIndex - tms.monthIndex ≤ 5
+      ∧ (pilMonth pil = 2 → pilDay pil = 29 → isLeap (tmP.year + 1900))
+      ∧ (L.zoneOf (effectiveTz w tz)).toLocal (vbiPilToTime cfg L w pil start tz).1 = some tmr
+      ∧ ((∃ t0, t0 + off t0 = secsFromTm tmP) → tmr.sameCivil tmP)
+      ∧ (∃ t', (vbiPilToTime cfg L w pil start tz).1 - 172800 ≤ t' ∧ t' ≤ (vbiPilToTime cfg L w pil start tz).1 + 172800
+          ∧ tmr.sameCivil (tmFromSecs (secsFromTm tmP + (off (vbiPilToTime cfg L w pil start tz).1 - off t')))) := by
+  obtain ⟨tms, tmP, h0, v1, v2, v3, v4, v5, h3⟩ := pil_to_time_pre cfg L w pil start tz hc htz hz.lawful hyear hr
+  obtain ⟨tmr, hr1⟩ := hz.mktime_converts _ _ h3
+  have hloc := hz.localtime _ _ hr1
+  refine ⟨tms, tmP, tmr, h0, v1, v2, v3, v4, v5, hr1, ?_, ?_⟩
+  · intro hex
+    have := hz.mktime_hit _ _ v1 h3 hex
+    rw [this] at hloc
+    exact hloc.trans (tmFromSecs_secsFromTm tmP v1)
+  · obtain ⟨t', g1, g2, g3⟩ := hz.mktime_gap _ _ v1 h3
+    refine ⟨t', g1, g2, ?_⟩
+    have : (vbiPilToTime cfg L w pil start tz).1 + off (vbiPilToTime cfg L w pil start tz).1
+        = secsFromTm tmP + (off (vbiPilToTime cfg L w pil start tz).1 - off t') := by omega
+    rw [this] at hloc
+    exact hloc
 
 /-! ## vbi_pil_lto_to_time on the concrete calendar -/
 
